@@ -314,3 +314,134 @@ Proof.
   destruct (run (balanced_holdout_prog (scr_plates screen) num den) answers) as [[x rs] | t] eqn:E; [| discriminate].
   inversion Hm; subst. exact (balanced_holdout_trace _ _ _ _ _ _ E).
 Qed.
+
+(* ---------------------------------------------------------------- retrospective.py: FixedSizeSmoother / OptimalSizeSmoother._smooth_plates *)
+(* a loop whose body neither raises nor draws is a fold_left *)
+Lemma rp_fold_pure {S A : Type} (f : S -> A -> rprog S) (g : S -> A -> S) :
+  (forall s a, f s a = rp_ret (g s a)) -> forall l s, rp_fold f l s = rp_ret (fold_left g l s).
+Proof.
+  intros H l. induction l as [| a l IH]; intros s; cbn [rp_fold fold_left]; [reflexivity|].
+  rewrite H. cbn [rp_ret rp_bind bind]. apply IH.
+Qed.
+
+(* the loop over the plates, for an arbitrary body equal to the canonical one; [acc] = the vectors kept so far *)
+Lemma size_loop {B : Type} (size t : Z) (f : list (list bool) -> list bool -> rprog (list (list bool))) :
+  (forall res v, f res v =
+     if count_true v <? t then Ret (Ok res)
+     else if count_true v =? t then Ret (Ok (res ++ [v]))
+     else Draw (size_smoother_req size t v) (fun a => Ret (Ok (res ++ [mask_of size a])))) ->
+  forall plates acc (Ksrc : list (list bool) -> rprog B) (K : list (list (list bool)) -> prog req ans (result B)),
+    (forall kept, prog_eq_on any_answer (Ksrc (acc ++ concat kept)) (K kept)) ->
+    prog_eq_on any_answer (rp_bind (rp_fold f plates acc) Ksrc) (bind (for_each (size_smoother_body size t) plates) K).
+Proof.
+  intros Hf. induction plates as [| v rest IH]; intros acc Ksrc K HK.
+  - cbn. specialize (HK []). cbn [concat] in HK. rewrite app_nil_r in HK. exact HK.
+  - cbn [rp_fold for_each]. rewrite Hf. unfold size_smoother_body at 1.
+    destruct (count_true v <? t).
+    + cbn [rp_bind bind]. eapply peq_trans; [| apply peq_sym, peq_bind_assoc]. cbn [bind].
+      apply (IH acc Ksrc (fun bs => K ([] :: bs))). intros kept. exact (HK ([] :: kept)).
+    + destruct (count_true v =? t).
+      * cbn [rp_bind bind]. eapply peq_trans; [| apply peq_sym, peq_bind_assoc]. cbn [bind].
+        apply (IH (acc ++ [v]) Ksrc (fun bs => K ([v] :: bs))). intros kept.
+        specialize (HK ([v] :: kept)). cbn [concat] in HK. rewrite app_assoc in HK. exact HK.
+      * unfold size_smoother_req. cbn [rp_bind bind]. constructor. intros a _. cbn [bind].
+        eapply peq_trans; [| apply peq_sym, peq_bind_assoc]. cbn [bind].
+        apply (IH (acc ++ [mask_of size a]) Ksrc (fun bs => K ([mask_of size a] :: bs))). intros kept.
+        specialize (HK ([mask_of size a] :: kept)). cbn [concat] in HK. rewrite app_assoc in HK. exact HK.
+Qed.
+
+(* both smoothers: the plate loop followed by anything that equals "OR the kept vectors, build the sub-screen" *)
+Lemma size_smooth_link {Scr : Type} (size t : Z) (plates : list (list bool)) (mk : list bool -> result Scr)
+      (f : list (list bool) -> list bool -> rprog (list (list bool))) (Ksrc : list (list bool) -> rprog Scr) :
+  (forall res v, f res v =
+     if count_true v <? t then Ret (Ok res)
+     else if count_true v =? t then Ret (Ok (res ++ [v]))
+     else Draw (size_smoother_req size t v) (fun a => Ret (Ok (res ++ [mask_of size a])))) ->
+  (forall results, Ksrc results = Ret (mk (fold_left bor_mask results (mask_zeros size)))) ->
+  prog_eq_on any_answer (rp_bind (rp_fold f plates []) Ksrc)
+                        (bind (size_smoother_prog plates size t) (fun v => Ret (mk v))).
+Proof.
+  intros Hf HK. unfold size_smoother_prog.
+  eapply peq_trans; [| apply peq_sym, peq_bind_assoc]. cbn [bind].
+  apply (size_loop size t f Hf). intros kept. cbn [app]. rewrite HK. apply peq_refl.
+Qed.
+
+Lemma size_tail {Scr : Type} (mk : list bool -> result Scr) (f2 : list bool -> list bool -> rprog (list bool)) init results :
+  (forall s v, f2 s v = rp_ret (bor_mask s v)) ->
+  (dop fin <- rp_fold f2 results init; dop r <- rp_lift (mk fin); rp_ret r) = Ret (mk (fold_left bor_mask results init)).
+Proof.
+  intros H2. rewrite (rp_fold_pure f2 bor_mask H2). unfold rp_ret, rp_lift. cbn [rp_bind bind].
+  destruct (mk (fold_left bor_mask results init)); reflexivity.
+Qed.
+
+Theorem src_fixed_size_is_model :
+  forall (Scr : Type) (scr_size : Scr -> Z) (scr_plates : Scr -> list (list bool)) (mk_subset : Scr -> list bool -> result Scr)
+         plate_size screen,
+  prog_eq_on any_answer
+    (src_fixed_size_smooth Scr scr_size scr_plates mk_subset plate_size screen)
+    (bind (size_smoother_prog (scr_plates screen) (scr_size screen) plate_size) (fun v => Ret (mk_subset screen v))).
+Proof.
+  intros Scr scr_size scr_plates mk_subset t screen. unfold src_fixed_size_smooth.
+  apply (size_smooth_link (scr_size screen) t (scr_plates screen) (mk_subset screen)).
+  - intros res v. cbv zeta.
+    destruct (count_true v <? t) eqn:E1; [reflexivity|]. destruct (count_true v =? t) eqn:E2; [reflexivity|].
+    destruct (count_true v >? t) eqn:E3; [reflexivity | lia].
+  - intros results. cbv zeta. apply size_tail. intros s v. reflexivity.
+Qed.
+
+Theorem src_optimal_size_is_model :
+  forall (Scr : Type) (scr_size : Scr -> Z) (scr_plates : Scr -> list (list bool)) (mk_subset : Scr -> list bool -> result Scr)
+         (opt_size : list Z -> result Z) screen,
+  prog_eq_on any_answer
+    (src_optimal_size_smooth Scr scr_size scr_plates mk_subset opt_size screen)
+    (match opt_size (map count_true (scr_plates screen)) with
+     | Err e => Ret (Err e)
+     | Ok t => bind (size_smoother_prog (scr_plates screen) (scr_size screen) t) (fun v => Ret (mk_subset screen v))
+     end).
+Proof.
+  intros Scr scr_size scr_plates mk_subset opt_size screen. unfold src_optimal_size_smooth.
+  destruct (opt_size (map count_true (scr_plates screen))) as [t | e]; unfold rp_lift at 1; cbn [rp_bind bind]; [| apply peq_refl].
+  apply (size_smooth_link (scr_size screen) t (scr_plates screen) (mk_subset screen)).
+  - intros res v. cbv zeta.
+    destruct (count_true v <? t) eqn:E1; [reflexivity|]. destruct (count_true v =? t) eqn:E2; [reflexivity|].
+    destruct (count_true v >? t) eqn:E3; [reflexivity | lia].
+  - intros results. cbv zeta. apply size_tail. intros s v. reflexivity.
+Qed.
+
+(* the request trace of the translated FixedSizeSmoother: one choice per plate larger than the size, in plate order *)
+Lemma size_loop_trace : forall size t plates answers outs reqs,
+  run (for_each (size_smoother_body size t) plates) answers = Ok (outs, reqs) ->
+  reqs = map (size_smoother_req size t) (filter (fun v => t <? count_true v) plates).
+Proof.
+  intros size t plates. induction plates as [| v rest IH]; intros answers outs reqs H.
+  - cbn in H. inversion H. reflexivity.
+  - cbn [for_each] in H. unfold size_smoother_body at 1 in H. cbn [filter].
+    destruct (count_true v <? t) eqn:E1.
+    + replace (t <? count_true v) with false by lia.
+      cbn [bind] in H. rewrite run_bind_ret in H.
+      destruct (run (for_each (size_smoother_body size t) rest) answers) as [[x rs] | e] eqn:E; [| discriminate].
+      inversion H; subst. exact (IH answers x reqs E).
+    + destruct (count_true v =? t) eqn:E2.
+      * replace (t <? count_true v) with false by lia.
+        cbn [bind] in H. rewrite run_bind_ret in H.
+        destruct (run (for_each (size_smoother_body size t) rest) answers) as [[x rs] | e] eqn:E; [| discriminate].
+        inversion H; subst. exact (IH answers x reqs E).
+      * replace (t <? count_true v) with true by lia.
+        cbn [bind run] in H. destruct answers as [| a arest]; [discriminate|].
+        rewrite run_bind_ret in H.
+        destruct (run (for_each (size_smoother_body size t) rest) arest) as [[x rs] | e] eqn:E; [| discriminate].
+        inversion H; subst. cbn [map]. f_equal. exact (IH arest x rs E).
+Qed.
+
+Theorem src_fixed_size_trace :
+  forall (Scr : Type) (scr_size : Scr -> Z) (scr_plates : Scr -> list (list bool)) (mk_subset : Scr -> list bool -> result Scr)
+         plate_size screen answers out reqs,
+  run (src_fixed_size_smooth Scr scr_size scr_plates mk_subset plate_size screen) answers = Ok (out, reqs) ->
+  reqs = map (size_smoother_req (scr_size screen) plate_size) (filter (fun v => plate_size <? count_true v) (scr_plates screen)).
+Proof.
+  intros Scr scr_size scr_plates mk_subset t screen answers out reqs Hrun.
+  rewrite (peq_run_any _ _ _ _ _ (src_fixed_size_is_model Scr scr_size scr_plates mk_subset t screen)) in Hrun.
+  rewrite run_bind_ret in Hrun. unfold size_smoother_prog in Hrun. rewrite run_bind_ret in Hrun.
+  destruct (run (for_each (size_smoother_body (scr_size screen) t) (scr_plates screen)) answers) as [[x rs] | e] eqn:E; [| discriminate].
+  inversion Hrun; subst. exact (size_loop_trace _ _ _ _ _ _ E).
+Qed.
